@@ -12,7 +12,7 @@ use std::time::{SystemTime, UNIX_EPOCH, Duration};
 use std::thread;
 
 use crate::error::{FerrousError, Result};
-use crate::storage::{StorageEngine, Value, GetResult};
+use crate::storage::{StorageEngine, Value};
 
 /// RDB file version (Redis 9 compatible)
 const RDB_VERSION: u16 = 9;
@@ -261,9 +261,9 @@ impl RdbEngine {
             
             // Write all key-value pairs
             for key in keys {
-                if let GetResult::Found(value) = storage.get(db, &key)? {
+                if let Some((value, ttl)) = storage.get_with_ttl(db, &key)? {
                     // Check for expiration
-                    let expire_time = storage.ttl(db, &key)?
+                    let expire_time = ttl
                         .map(|ttl| SystemTime::now() + ttl);
                     
                     // Write expiration if present
@@ -468,14 +468,11 @@ impl RdbEngine {
                     #[cfg(feature = "verif")]
                     crate::verif::RDB_HOLD.reach("before-get", &key, &|| vec![key.clone()]);
                     
-                    // Get value
-                    match storage.get(db_idx, &key)? {
-                        GetResult::Found(value) => {
+                    // Get value and TTL together: what the key holds at one instant
+                    match storage.get_with_ttl(db_idx, &key)? {
+                        Some((value, ttl)) => {
                             #[cfg(feature = "verif")]
                             crate::verif::RDB_HOLD.reach("between-get-and-ttl", &key, &|| vec![key.clone()]);
-                            
-                            // Get TTL if any
-                            let ttl = storage.ttl(db_idx, &key)?;
                             
                             // Write key-value pair
                             writer.write_key_value(&key, &value, ttl)?;
